@@ -135,13 +135,50 @@ func registerJSON(e *Engine) {
 			target.store(m)
 			return NilIface
 		}
-		// any other target: only syntactic validity is decided
+		// a struct target: concrete JSON object, fields matched by name (strings, integers, string maps)
 		var anyv interface{}
 		if err := json.Unmarshal([]byte(c), &anyv); err != nil {
 			return p.errVal(err.Error())
 		}
-		p.unsupported("json.Unmarshal of real JSON into %T", cur)
-		return nil
+		obj, isObj := anyv.(map[string]interface{})
+		sv, isStruct := cur.(*StructVal)
+		st, _ := target.Obj.Typ.Underlying().(*types.Struct)
+		if !isObj || !isStruct || st == nil || len(target.Path) != 0 {
+			p.unsupported("json.Unmarshal of real JSON into %T", cur)
+		}
+		for i := 0; i < st.NumFields(); i++ {
+			val, ok := obj[st.Field(i).Name()]
+			if !ok {
+				continue
+			}
+			switch x := val.(type) {
+			case string:
+				if _, isStr := sv.F[i].(*StrVal); isStr {
+					sv.F[i] = StrC(x)
+				}
+			case float64:
+				if t, isT := sv.F[i].(*Term); isT && t.S.K == KBV {
+					sv.F[i] = BVCi(t.S.W, int64(x))
+				}
+			case map[string]interface{}:
+				if m, isM := sv.F[i].(*MapVal); isM {
+					nm := &MapVal{KT: m.KT, VT: m.VT}
+					keys := make([]string, 0, len(x))
+					for k := range x {
+						keys = append(keys, k)
+					}
+					sortStrings(keys)
+					for _, k := range keys {
+						if vs, ok := x[k].(string); ok {
+							p.mapStore(nm, StrC(k), StrC(vs))
+						}
+					}
+					sv.F[i] = nm
+				}
+			}
+		}
+		target.store(sv)
+		return NilIface
 	}
 }
 
